@@ -75,7 +75,13 @@ package termincommittee
 //@   | && (ncommitted == 0 ==> lastCommitHeight < tic.State.height)
 //@   | && (ncommitted == 0 && tic.preparedLocally != nil && tic.preparedLocally.isPreparedLocally ==> tic.preparedLocally.latestView <= tic.State.view)
 //@   | && (ncommitted == 0 && tic.preparedLocally != nil && tic.preparedLocally.isPreparedLocally ==> ppStored[tic.preparedLocally.latestView]
-//@   |     && len(PIds(tic.storage, pver, tic.State.height, tic.preparedLocally.latestView, ppHash[tic.preparedLocally.latestView])) >= 1)
+//@   |     && len(PIds(tic.storage, pver, tic.State.height, tic.preparedLocally.latestView, ppHash[tic.preparedLocally.latestView])) >= 1
+//@   |     && CertQ(tic, tic.preparedLocally.latestView))
+
+// the certificate of a prepared view is in the log (C09, the lock can be carried): the senders listed for the stored proposal
+// of that view, together with its proposer, reach the quorum weight
+//@ pred CertQ(tic *TermInCommittee, v primitives.View) = SW(Snoc(PIds(tic.storage, pver, tic.State.height, v, ppHash[v]), PPSender(tic.storage, tic.State.height, v)), tic.committeeMembers, len(tic.committeeMembers))
+//@   |   >= Qz(SumMW(tic.committeeMembers, len(tic.committeeMembers)))
 
 // the lock (prepared certificate) is never dropped or moved back within a term (C09)
 //@ pred LockKept(tic *TermInCommittee, before *preparedLocallyProps, wasPrepared bool, oldView primitives.View) = before != nil && wasPrepared ==>
@@ -252,6 +258,8 @@ package termincommittee
 //@   ensures [counted] countedP[pp]
 //@   ensures [A-STORE.stored-sender-is-listed] len(PIds(self, pver, pp.content.SignedHeader().BlockHeight(), pp.content.SignedHeader().View(), pp.content.SignedHeader().BlockHash())) >= 1
 //@   ensures [A-STORE.log-only-grows] forall qh int, qv int, qx Str :: len(PIds(self, pver, qh, qv, qx)) >= len(PIds(self, old(pver), qh, qv, qx))
+//@   ensures [A-STORE.the-weight-of-the-senders-listed-under-a-key-never-shrinks] forall qh int, qv int, qx Str, ql primitives.MemberId ::
+//@     | SW(Snoc(PIds(self, pver, qh, qv, qx), ql), caller.committeeMembers, len(caller.committeeMembers)) >= SW(Snoc(PIds(self, old(pver), qh, qv, qx), ql), caller.committeeMembers, len(caller.committeeMembers))
 
 //@ iface interfaces.Storage.StoreCommit
 //@   requires [O8.3.verified] cm != nil && cm.content != nil && Signed(caller, cm.content.SignedHeader(), cm.content.Sender())
@@ -300,6 +308,7 @@ package termincommittee
 //@ iface interfaces.Storage.GetPreprepareFromView
 //@   ensures result1 == ppStored[view]
 //@   ensures result1 ==> result0 == PPAt(self, blockHeight, view)
+//@   ensures [A-STORE.the-stored-proposal-keeps-its-sender] result1 ==> result0.content.Sender().MemberId() == PPSender(self, blockHeight, view)
 //@   ensures result1 ==> result0 != nil && result0.content != nil && result0.content.SignedHeader().View() == view
 //@     | && result0.content.SignedHeader().BlockHeight() == blockHeight && content(result0.content.SignedHeader().BlockHash()) == ppHash[view]
 
@@ -317,6 +326,7 @@ package termincommittee
 //@ iface interfaces.Storage.GetPreprepareMessage
 //@   ensures result1 == ppStored[view]
 //@   ensures result1 ==> result0 == PPAt(self, blockHeight, view)
+//@   ensures [A-STORE.the-stored-proposal-keeps-its-sender] result1 ==> result0.content.Sender().MemberId() == PPSender(self, blockHeight, view)
 //@   ensures result1 ==> ProposalOK(caller, result0)
 //@   ensures result1 ==> result0 != nil && result0.content != nil && result0.content.SignedHeader().View() == view
 //@     | && result0.content.SignedHeader().BlockHeight() == blockHeight && content(result0.content.SignedHeader().BlockHash()) == ppHash[view]
@@ -769,6 +779,7 @@ package termincommittee
 //@   ensures [O10.6.view-advances-by-one-or-not-at-all] tic.State.view == old(tic.State.view) || old(tic.State.view) + 1 <= tic.State.view
 //@   assert before call ExtractPreparedMessages [O9.1.extracts-the-certificate-of-the-locked-view] $latestPreparedView == tic.preparedLocally.latestView && $blockHeight == tic.State.height && $committeeMembers == tic.committeeMembers && $storage == tic.storage
 //@   assert before call CreateViewChangeMessage [O9.1.vote-carries-what-was-extracted] (tic.preparedLocally != nil && tic.preparedLocally.isPreparedLocally) || $preparedMessages == nil
+//@   assert before call CreateViewChangeMessage [O9.1.a-prepared-node-attaches-its-certificate] tic.preparedLocally != nil && tic.preparedLocally.isPreparedLocally ==> $preparedMessages != nil
 
 // what starting a term may write: the view, the context registry, the proposal / send log (never the commit bookkeeping)
 //@ modset TICSTART = state.State.view, M:S_state_HeightView:Int, termincommittee.TermInCommittee.preparedLocally, ghost:ppStored, ghost:ppHash, ghost:sentPrepare, ghost:sentPrepareHash, ghost:sentCommit, ghost:sentCommitHash, ghost:proposed, ghost:lastCtxErrNil
